@@ -83,7 +83,10 @@ def unpack(job, r):
             seen_setup = True
         if c["call"] == "simulate":
             sims.append(("after" if seen_setup else "before", x["ret"]))
-    return {"meta": setup["meta"], "T0": setup["T"], "X0": setup["X"], "T": drive["T"], "U": drive["U"], "X": drive["X"],
+    inits = []
+    for x in res:
+        inits += lc.init_failures(x)
+    return {"inits": inits, "meta": setup["meta"], "T0": setup["T"], "X0": setup["X"], "T": drive["T"], "U": drive["U"], "X": drive["X"],
             "C": drive["C"], "progress": drive["progress"], "out": out, "C0": byc["is_complete"][0]["ret"], "sims": sims,
             "script_changed": setup.get("script_changed", [])}
 
@@ -101,6 +104,7 @@ def oracle(job, ob):
     tmax, dt, iv, ts = meta["tmax"], meta["dt"], meta["interval"], meta["tsamples"]
     fixed = info["option"] != "gillespie"
     manual = bool(info["samples"]) or info["pre_sample"] > 0
+    bad += ob.get("inits", [])
     # ---- shape
     if out["nt"] != out["nsamples"] or out["nd"] != out["nsamples"] * ns * nc or out["nspecies"] != ns or out["ncells"] != nc:
         bad.append(("shape", "data does not hold nsamples*nspecies*ncells values / one time per sample",
